@@ -248,10 +248,11 @@ def check_text(ctx, tag, res, text_out, gkf):
     lines = text_out.split("\n")
     try:
         a = next(i for i, l in enumerate(lines) if l.startswith("Adjusted observations"))
-        b = next(i for i, l in enumerate(lines) if l.startswith("Residuals and analysis of observations"))
     except StopIteration:
-        report("obs", "sections 'Adjusted observations' / 'Residuals and analysis of observations' not found")
+        report("obs", "section 'Adjusted observations' not found")
         return
+    # a network without redundancy has no section of residuals
+    b = next((i for i, l in enumerate(lines) if l.startswith("Residuals and analysis of observations")), len(lines))
     obsrows = []
     for l in lines[a:b]:
         # a row ends with observed, adjusted, std.dev, conf.i.; the row of an angle has its index on the preceding line
